@@ -22,6 +22,7 @@ func init() {
 			{ID: "C05.R4", Floor: 10, Doc: "no explicit panic reachable from public decode entry points without a recover", Run: c05r4},
 			{ID: "C05.R5", Floor: 10, Doc: "consumers of parseFrame results: default / failed-assertion branch does not panic or dereference", Run: c05r5},
 			{ID: "C05.R6", Floor: 1, Doc: "authenticator returned by Challenge is nil-checked before a method is invoked on it", Run: c05r6},
+			{ID: "C05.R9", Floor: 3, Doc: "pointer locals that start nil are assigned or nil-checked on every path before a field is read through them (response handling in the root package)", Run: c05r9},
 			{ID: "C05.R8", Floor: 20, Doc: "goroutine roots census: go statements whose callee parses network data run under recover or reach only rule-checked code", Run: c05r8},
 		},
 		Variants: []Variant{{Name: "linux/386", GOARCH: "386"}},
@@ -863,4 +864,147 @@ func c05r8(p *Program, r *Report) {
 		})
 	})
 	_ = token.NoPos
+}
+
+// c05r9: a local `var x *T` starts nil. On every path to a field access x.f (or *x) the variable must have
+// been assigned, or the access must be dominated by a test that excludes nil. Decided by a may-be-nil
+// forward dataflow over go/cfg combined with the guard facts.
+func c05r9(p *Program, r *Report) {
+	p.forEachFunc(false, func(fi *FuncInfo) {
+		if fi.Pkg != p.Root || fi.Decl.Body == nil {
+			return
+		}
+		info := fi.Pkg.TypesInfo
+		// candidate variables
+		cands := map[types.Object]bool{}
+		ast.Inspect(fi.Decl.Body, func(x ast.Node) bool {
+			if _, isLit := x.(*ast.FuncLit); isLit {
+				return false
+			}
+			if vs, ok := x.(*ast.ValueSpec); ok && len(vs.Values) == 0 {
+				for _, id := range vs.Names {
+					if obj := info.Defs[id]; obj != nil {
+						if _, isPtr := obj.Type().Underlying().(*types.Pointer); isPtr {
+							cands[obj] = true
+						}
+					}
+				}
+			}
+			return true
+		})
+		if len(cands) == 0 {
+			return
+		}
+		// captured by a closure that assigns it: give up on that variable (assigned elsewhere)
+		ast.Inspect(fi.Decl.Body, func(x ast.Node) bool {
+			if lit, isLit := x.(*ast.FuncLit); isLit {
+				ast.Inspect(lit.Body, func(y ast.Node) bool {
+					if id, ok := y.(*ast.Ident); ok && cands[info.Uses[id]] {
+						delete(cands, info.Uses[id])
+					}
+					return true
+				})
+				return false
+			}
+			if u, ok := x.(*ast.UnaryExpr); ok && u.Op == token.AND {
+				if id, ok := ast.Unparen(u.X).(*ast.Ident); ok && cands[info.Uses[id]] {
+					delete(cands, info.Uses[id]) // address taken: may be set through the pointer
+				}
+			}
+			return true
+		})
+		if len(cands) == 0 {
+			return
+		}
+		g := p.GraphOf(fi)
+		sol := Solve(g, Lattice[strset]{
+			Init: strset{},
+			Join: func(a, b strset) strset { return a.union(b) },
+			Eq:   func(a, b strset) bool { return a.eq(b) },
+			Step: func(s strset, st Step) strset {
+				if st.Kind != StNode {
+					return s
+				}
+				switch x := st.Node.(type) {
+				case *ast.ValueSpec:
+					if len(x.Values) == 0 {
+						for _, id := range x.Names {
+							if cands[info.Defs[id]] {
+								s = s.with(id.Name)
+							}
+						}
+					}
+				case *ast.AssignStmt:
+					for i, l := range x.Lhs {
+						id, ok := l.(*ast.Ident)
+						if !ok || !cands[info.Uses[id]] {
+							continue
+						}
+						if len(x.Rhs) == len(x.Lhs) && isNil(info, x.Rhs[i]) {
+							s = s.with(id.Name)
+						} else {
+							s = s.without(id.Name)
+						}
+					}
+				}
+				return s
+			},
+		})
+		facts := g.GuardFacts()
+		seq := map[string]int{}
+		inspectNoLit(fi.Decl.Body, func(x ast.Node) bool {
+			var base ast.Expr
+			switch e := x.(type) {
+			case *ast.SelectorExpr:
+				base = e.X
+				// a method value/call on a pointer receiver does not necessarily dereference; field reads do
+				if sel := info.Selections[e]; sel == nil || sel.Kind() != types.FieldVal {
+					return true
+				}
+			case *ast.StarExpr:
+				base = e.X
+			default:
+				return true
+			}
+			id, ok := ast.Unparen(base).(*ast.Ident)
+			if !ok || !cands[info.Uses[id]] {
+				return true
+			}
+			stmt := p.stmtOf(x, fi)
+			st, okS := sol.Before(stmt)
+			if !okS {
+				return true
+			}
+			key := fmt.Sprintf("%s: %s read through %s", fi.Name, exprStr(x.(ast.Expr)), id.Name)
+			seq[key]++
+			construct := key
+			if seq[key] > 1 {
+				construct = fmt.Sprintf("%s #%d", key, seq[key])
+			}
+			if !st[id.Name] {
+				r.OK(x, construct, "assigned on every path")
+				return true
+			}
+			f, _ := facts.Before(stmt)
+			// the access may sit inside the condition that tests it (x != nil && x.f): accept when an enclosing
+			// && operand or if-condition tests the variable
+			guarded := false
+			if v, known := f.m[id.Name+" == nil"]; known && !v {
+				guarded = true
+			}
+			for n := p.Parent(x); n != nil && !guarded; n = p.Parent(n) {
+				if be, ok := n.(*ast.BinaryExpr); ok && be.Op == token.LAND {
+					if strings.Contains(exprStr(be.X), id.Name+" != nil") && posWithin(be.Y, x.Pos()) {
+						guarded = true
+					}
+				}
+				if n == ast.Node(stmt) {
+					break
+				}
+			}
+			r.Check(guarded, x, construct, "dominated by a nil test",
+				fmt.Sprintf("`%s` is nil on a path that reaches this field access (declared without a value, assigned only on some branches) and no nil test dominates it: a well-formed but unexpected response makes the driver dereference nil", id.Name))
+			return true
+		})
+	})
 }
